@@ -340,6 +340,57 @@ fn shape(c: &Case) -> String {
 }
 
 /// builds the dependencies of the generated crates once (serde, serde_derive, typeshare-annotation, verif_dump)
+/// The attribute reached the way the documentation tells users to: through the `typeshare` library crate's re-export,
+/// under each feature selection of that crate a consumer may legitimately write. One tiny crate per selection, the
+/// annotated and the stripped twin in it; both must build and serialise alike.
+fn facade_family(rep: &mut Report) {
+    const SELECTIONS: [(&str, &str); 3] = [
+        ("default-features", "typeshare = { path = \"/repo/lib\" }"),
+        ("no-default-features", "typeshare = { path = \"/repo/lib\", default-features = false }"),
+        ("no-default-features-renamed-dependency", "ts = { package = \"typeshare\", path = \"/repo/lib\", default-features = false }"),
+    ];
+    let mut results = Vec::new();
+    for (name, dep) in SELECTIONS {
+        let dir = PathBuf::from("/verif/target/e4").join(format!("facade_{}", name.replace('-', "_")));
+        let _ = std::fs::remove_dir_all(&dir);
+        std::fs::create_dir_all(dir.join("src")).unwrap();
+        let _ = std::fs::copy("/repo/Cargo.lock", dir.join("Cargo.lock"));
+        std::fs::write(dir.join("Cargo.toml"), format!("[package]\nname = \"c19_facade\"\nversion = \"0.1.0\"\nedition = \"2021\"\n\n[workspace]\n\n[dependencies]\nserde = {{ version = \"1\", features = [\"derive\"] }}\nserde_json = \"1\"\n{dep}\n\n[profile.dev]\ndebug = false\nincremental = false\n")).unwrap();
+        let krate = if dep.starts_with("ts ") { "ts" } else { "typeshare" };
+        let main = format!(
+            "use serde::Serialize;\nmod a {{\n    use serde::Serialize;\n    use {krate}::typeshare;\n    #[typeshare(swift = \"Equatable\")]\n    #[derive(Serialize)]\n    #[serde(rename_all = \"camelCase\")]\n    pub struct Subject {{\n        #[typeshare(serialized_as = \"String\")]\n        pub user_id: {krate}::U53,\n        #[serde(skip)]\n        #[typeshare(skip)]\n        pub hidden: u32,\n    }}\n}}\nmod b {{\n    use serde::Serialize;\n    #[derive(Serialize)]\n    #[serde(rename_all = \"camelCase\")]\n    pub struct Subject {{\n        pub user_id: {krate}::U53,\n        #[serde(skip)]\n        pub hidden: u32,\n    }}\n}}\nfn show<T: Serialize>(t: &T) -> String {{ serde_json::to_string(t).unwrap() }}\nfn main() {{\n    let v = {krate}::U53::try_from(7u64).unwrap();\n    println!(\"{{}}\", show(&a::Subject {{ user_id: v, hidden: 1 }}));\n    println!(\"{{}}\", show(&b::Subject {{ user_id: v, hidden: 1 }}));\n}}\n"
+        );
+        std::fs::write(dir.join("src/main.rs"), main).unwrap();
+        let out = Command::new("cargo")
+            .args(["run", "--offline", "--quiet", "--message-format", "short"])
+            .current_dir(&dir)
+            .env("CARGO_TARGET_DIR", format!("/verif/target/e4/target_facade_{}", name.replace('-', "_")))
+            .env("CARGO_NET_OFFLINE", "true")
+            .env("RUSTFLAGS", "-Awarnings")
+            .output();
+        let (ok, log, stdout) = match out {
+            Ok(o) => (o.status.success(), String::from_utf8_lossy(&o.stderr).chars().take(3000).collect::<String>(), String::from_utf8_lossy(&o.stdout).into_owned()),
+            Err(e) => (false, format!("cannot run cargo: {e}"), String::new()),
+        };
+        let lines: Vec<&str> = stdout.lines().collect();
+        let same = ok && lines.len() == 2 && lines[0] == lines[1] && lines[0].contains("userId");
+        if !same {
+            // tell an annotated-side failure from a harness problem: the stripped twin alone is plain serde
+            if log.contains("cannot run cargo") || log.contains("failed to select a version") || log.contains("no matching package") {
+                rep.machinery(format!("facade crate ({name}) could not be set up: {}", log.chars().take(400).collect::<String>()));
+            } else {
+                rep.vios.add(Violation {
+                    sig: format!("C19|attribute-through-the-library-re-export|features={name}|{}", if !ok { "annotated-program-does-not-build" } else { "twins-serialise-differently" }),
+                    detail: json!({"dependency_line": dep, "build_log": log, "stdout": stdout, "observation": "the program that uses #[typeshare] through the library crate must build and behave like the one without the attributes"}),
+                });
+            }
+        }
+        results.push(json!({"features": name, "built_and_equal": same}));
+    }
+    rep.cov("attribute_through_the_library_re_export", json!(results));
+    rep.cov_add("evaluations", SELECTIONS.len() as u64);
+}
+
 pub fn warm() {
     let cases = enumerate(false);
     let first: Vec<&Case> = cases.iter().take(2).collect();
@@ -428,6 +479,7 @@ pub fn run(args: &[String]) -> i32 {
     rep.cov("serde_json_comparisons", json!(json_judged));
     rep.cov("crate_build_wall_s", json!(walls));
     rep.cov("exhaustive", json!(true));
+    facade_family(&mut rep);
     rep.cov("rule", json!("9 item kinds × every #[typeshare(...)] argument list × for every member position: every helper attribute list × neighbouring attribute before × after (quick: one neighbour at a time; thorough: both, plus helpers on two members at once) × derive before/after #[typeshare]; every case emitted twice (annotated / stripped twin) in one generated crate, compiled by rustc with the real typeshare-annotation macro; a harness attribute macro below #[typeshare] records the item's tokens: they must equal the twin's, and serde_json output / cross-deserialisation must agree. non-trivial = at least one nested helper attribute present."));
     rep.assume("one toolchain (the installed rustc); serde 1.0.214 from the cargo cache");
     rep.assume("cases in which a member is compiled out (cfg(any())) or serde-skipped in tuple/enum position are compared on tokens only");
